@@ -54,6 +54,20 @@ theorem Out.write_stack {B : Type} [FmtWrite B] (o : Out B) (c : Chunk) :
   | nil => simp [Out.write, appendTop]
   | cons a tl => cases a <;> simp [Out.write, appendTop]
 
+/-- an evaluation on an `Output` of its own: only its value and its result matter to the caller -/
+theorem exec_own {B : Type} [FmtWrite B] (f : Fresh) (body : Prog) (k : Bytes → Prog) (o : Out B) :
+    exec (.own f body k) o =
+      match ownRun f body with
+      | (v, .ok (.ok ())) => exec (k v) o
+      | (_, res) => (o, res) := by
+  have h : exec (.own f body k) o = ownThen (ownRun f body) (fun v => exec (k v) o) (fun res => (o, res)) := by
+    cases f <;> simp only [exec, ownRun]
+  rw [h]
+  rcases ownRun f body with ⟨v, res⟩
+  cases res with
+  | panic => rfl
+  | ok y => cases y <;> rfl
+
 /-- **Refinement**: the flat run of `flatten p` and the structured evaluation of `p` agree. -/
 theorem run_flatten {B : Type} [FmtWrite B] (p : Prog) (o : Out B) (ws : List Wrap) :
     (run (flatten p) ⟨o, ws⟩).1.out = (exec p o).1 ∧
@@ -163,6 +177,16 @@ theorem run_flatten {B : Type} [FmtWrite B] (p : Prog) (o : Out B) (ws : List Wr
         subst h2
         obtain ⟨hw, hst⟩ := h3 rfl
         simp [h1, hw, mapErr, hst]
+  | own f body k _ ihk =>
+    rw [exec_own]
+    simp only [flatten, written]
+    rcases hr : ownRun f body with ⟨v, res⟩
+    cases res with
+    | panic => simp [run, step, mapErr]
+    | ok x =>
+      cases x with
+      | error e => simp [run, step, mapErr]
+      | ok u => exact ihk v o ws
 
 theorem mapErr_wrapAll_nil (r : Chk (Except Err Unit)) : mapErr (wrapAll []) r = r := by
   cases r with
@@ -181,13 +205,20 @@ theorem renderProg_eq (p : Prog) (script : List Beh) :
     rw [mapErr_wrapAll_nil] at h2
     simp only [renderProgString, renderString, St.init, h1, h2]
 
+theorem finish_ne_panic (w : WriteWrapper) (r : Chk (Except Err Unit)) (h : r ≠ .panic) :
+    w.finish r ≠ .panic := by
+  cases r with
+  | panic => exact absurd rfl h
+  | ok x => cases x <;> simp [WriteWrapper.finish]
+
 /-- the structured evaluation never hits the `end_capture` panic -/
-theorem exec_no_panic {B : Type} [FmtWrite B] (p : Prog) (o : Out B) : (exec p o).2 ≠ .panic := by
-  induction p generalizing o with
-  | skip => simp [exec]
-  | emit c => simp only [exec]; by_cases h : (o.write c).2 = true <;> simp [h]
-  | fail id => simp [exec]
+theorem exec_no_panic (p : Prog) : ∀ {B : Type} [FmtWrite B] (o : Out B), (exec p o).2 ≠ .panic := by
+  induction p with
+  | skip => intro B _ o; simp [exec]
+  | emit c => intro B _ o; simp only [exec]; by_cases h : (o.write c).2 = true <;> simp [h]
+  | fail id => intro B _ o; simp [exec]
   | seq a b iha ihb =>
+    intro B _ o
     simp only [exec]
     rcases he : exec a o with ⟨o', eres⟩
     have := iha o
@@ -199,6 +230,7 @@ theorem exec_no_panic {B : Type} [FmtWrite B] (p : Prog) (o : Out B) : (exec p o
       | error e => simp
       | ok u => exact ihb o'
   | capture d body k ihb ihk =>
+    intro B _ o
     simp only [exec]
     rcases he : exec body (o.beginCapture d) with ⟨o', eres⟩
     have hb := ihb (o.beginCapture d)
@@ -220,6 +252,7 @@ theorem exec_no_panic {B : Type} [FmtWrite B] (p : Prog) (o : Out B) : (exec p o
         simp only [Out.endCapture]
         exact ihk _ _
   | nested w body ih =>
+    intro B _ o
     simp only [exec]
     rcases he : exec body o with ⟨o', eres⟩
     have := ih o
@@ -227,6 +260,28 @@ theorem exec_no_panic {B : Type} [FmtWrite B] (p : Prog) (o : Out B) : (exec p o
     cases eres with
     | panic => exact absurd rfl this
     | ok x => cases x <;> simp
+  | own f body k ihb ihk =>
+    intro B _ o
+    rw [exec_own]
+    have hown : (ownRun f body).2 ≠ .panic := by
+      cases f with
+      | string => exact ihb (⟨([] : Bytes), []⟩ : Out Bytes)
+      | null => exact ihb (⟨(), [none]⟩ : Out Unit)
+      | sink script => exact finish_ne_panic _ _ (ihb _)
+    rcases hr : ownRun f body with ⟨v, res⟩
+    rw [hr] at hown
+    cases res with
+    | panic => exact absurd rfl hown
+    | ok x =>
+      cases x with
+      | error e => simp
+      | ok u => exact ihk v o
+
+theorem ownRun_no_panic (f : Fresh) (body : Prog) : (ownRun f body).2 ≠ .panic := by
+  cases f with
+  | string => exact exec_no_panic body (⟨([] : Bytes), []⟩ : Out Bytes)
+  | null => exact exec_no_panic body (⟨(), [none]⟩ : Out Unit)
+  | sink script => exact finish_ne_panic _ _ (exec_no_panic body _)
 
 /-- the capture brackets of a flattened program are balanced -/
 theorem balanced_flatten (p : Prog) (d : Nat) (rest : List Op) :
@@ -245,5 +300,16 @@ theorem balanced_flatten (p : Prog) (d : Nat) (rest : List Op) :
     simp only [flatten, List.cons_append, List.append_assoc, balanced]
     rw [ih]
     simp [balanced]
+  | own f body k _ ihk =>
+    simp only [flatten]
+    have hown := ownRun_no_panic f body
+    rcases hr : ownRun f body with ⟨v, res⟩
+    rw [hr] at hown
+    cases res with
+    | panic => exact absurd rfl hown
+    | ok x =>
+      cases x with
+      | error e => simp [balanced]
+      | ok u => exact ihk v d rest
 
 end MJ.Output
